@@ -2,12 +2,15 @@ package rules
 
 import (
 	"fmt"
+	"go/token"
 	"go/types"
 	"strings"
 
 	"golang.org/x/tools/go/ssa"
 
+	"sheensverif/internal/flow"
 	"sheensverif/internal/prog"
+	"sheensverif/internal/pta"
 	"sheensverif/internal/ssau"
 )
 
@@ -102,5 +105,164 @@ func c15StoreSeeded(c *Ctx, rule string) {
 	}
 	if total == 0 {
 		c.R.Break(rule + ": no Read method of package sio decodes persisted machines")
+	}
+}
+
+// c20SpecUntouched: C20-R8.  Analysis and rendering describe the specification they are given and leave it as it was:
+// E1 from the tools' entry points with the spec protected.  A renderer that adds placeholder nodes to Spec.Nodes, or
+// parses the patterns in place, changes what the next analysis (or the host that runs the spec) sees.
+func c20SpecUntouched(c *Ctx, rule string) {
+	var entries []*ssa.Function
+	roots := map[*ssa.Function]map[int]pta.RootSpec{}
+	for _, f := range c.P.FuncsIn("tools") {
+		if f.Parent() != nil || f.Object() == nil || !f.Object().Exported() || f.Signature.Recv() != nil {
+			continue
+		}
+		r := map[int]pta.RootSpec{}
+		for i, p := range f.Params {
+			if ssau.TypeIs(p.Type(), prog.Abs("core"), "Spec") {
+				r[i] = pta.RootSpec{Name: "spec", Levels: 5}
+			}
+		}
+		if len(r) == 0 {
+			continue
+		}
+		entries = append(entries, f)
+		roots[f] = r
+	}
+	if len(entries) < 3 {
+		c.R.Break(rule+": expected Analyze, Dot and Mermaid (at least) to take a *core.Spec, found %d entry points", len(entries))
+		return
+	}
+	a := pta.New(pta.Config{Prog: c.P, EnginePkgs: map[string]bool{"tools": true, "core": true, "match": true}, Entries: entries, Roots: roots, External: stdExternal})
+	a.Run()
+	c.noteAnalysis(a)
+	n := c.reportEffects(rule, a, func(e pta.Effect) bool { return strings.HasPrefix(e.Target.Name, "root:spec") })
+	if n == 0 {
+		var names []string
+		for _, f := range entries {
+			names = append(names, f.Name())
+			c.R.Fn(fname(f))
+		}
+		c.R.Discharge(rule, "tools: the given specification is only read", c.P.Pos(entries[0].Pos()), fmt.Sprintf("%d write sites reachable from %s examined, none can reach the spec", countReachedWrites(a), strings.Join(names, ", ")))
+	}
+}
+
+// c20Terminal: C20-R9.  The terminal nodes reported are the nodes without a branch: a node is added to the list on the
+// edge that found its list of branches empty (len == 0; a nil list has length 0 too), and a node without any branching
+// (nil Branches) is added as well — through its own nil test or because the list taken for such a node is nil.
+func c20Terminal(c *Ctx, rule string, ana *ssa.Function, scope []*ssa.Function) {
+	var apps []*ssa.Call
+	for _, st := range storesToPkg(ana, "tools", "SpecAnalysis", "TerminalNodes") {
+		for _, d := range deepDefs(st.Val, scope) {
+			if cl, ok := d.(*ssa.Call); ok {
+				if b, isB := cl.Common().Value.(*ssa.Builtin); isB && b.Name() == "append" && cl.Parent() == ana {
+					apps = append(apps, cl)
+				}
+			}
+		}
+	}
+	if len(apps) == 0 {
+		c.R.Break(rule + ": no append feeding SpecAnalysis.TerminalNodes found in Analyze")
+		return
+	}
+	isBranchList := func(v ssa.Value) (list, nilOK bool) {
+		for _, d := range deepDefs(v, scope) {
+			if _, is := isFieldLoad(d, "core", "Branches", "Branches"); is {
+				list = true
+			}
+			if ssau.IsNilConst(d) {
+				nilOK = true
+			}
+		}
+		return
+	}
+	for i, ap := range apps {
+		B := ap.Block()
+		var edges [][]flow.Fact
+		if len(B.Preds) <= 1 {
+			edges = append(edges, flow.FactsAt(B))
+		} else {
+			for _, p := range B.Preds {
+				edges = append(edges, append(append([]flow.Fact{}, flow.FactsAt(p)...), flow.EdgeFacts(p, B)...))
+			}
+		}
+		emptyEdge, nilEdge := false, false
+		for _, fs := range edges {
+			for _, ft := range flow.Expand(fs) {
+				bo, ok := ft.Cond.(*ssa.BinOp)
+				if !ok {
+					continue
+				}
+				eq := (bo.Op == token.EQL && ft.True) || (bo.Op == token.NEQ && !ft.True)
+				x, y := bo.X, bo.Y
+				if _, isC := x.(*ssa.Const); isC {
+					x, y = y, x
+				}
+				if cl, isCl := x.(*ssa.Call); isCl && eq {
+					if b, isB := cl.Common().Value.(*ssa.Builtin); isB && b.Name() == "len" {
+						if k, isK := ssau.ConstInt(y); isK && k == 0 {
+							if list, nilOK := isBranchList(cl.Common().Args[0]); list {
+								emptyEdge = true
+								if nilOK {
+									nilEdge = true
+								}
+							}
+						}
+					}
+				}
+				// 0 < len(x) false, len(x) > 0 false, len(x) < 1 true ...: not the idiom of this code base; the rule would report them (see DESIGN)
+				if eq && ssau.IsNilConst(y) {
+					if list, nilOK := isBranchList(x); list && nilOK {
+						nilEdge = true
+					}
+					for _, d := range deepDefs(x, scope) {
+						if _, is := isFieldLoad(d, "core", "Node", "Branches"); is {
+							nilEdge = true
+						}
+					}
+				}
+			}
+		}
+		var why []string
+		if !emptyEdge {
+			why = append(why, "no edge into the append tests the list of branches for being empty (a node whose branching has an empty list is not reported as terminal)")
+		}
+		if !nilEdge {
+			why = append(why, "no edge into the append covers a node without any branching")
+		}
+		c.R.Check(len(why) == 0, rule, fmt.Sprintf("Analyze: terminal nodes #%d are the nodes without a branch", i+1), c.pos(ap), "added on the 'len(Branches.Branches) == 0' edge and for nil Branches", strings.Join(why, "; "))
+	}
+}
+
+// c12OwnSpec: C12-R11.  The single-loop host compiles the specification of a machine in place (Spec.Compile writes the
+// spec).  That is only harmless because the spec it compiles is its own: ResolveSpecSource works on a private copy of
+// whatever it was given (the JSON round trip), so no two machines — and no machine and the caller — share a Spec that
+// one of them is still compiling.  E1: nothing reachable from the given source is written, and neither result of
+// ResolveSpecSource is (part of) what it was given.
+func c12OwnSpec(c *Ctx, rule string) {
+	rs := c.P.Func("sio", "", "ResolveSpecSource")
+	if rs == nil || len(rs.Params) != 2 {
+		c.R.Break(rule + ": sio.ResolveSpecSource(ctx, source) not found")
+		return
+	}
+	c.R.Fn(fname(rs))
+	a := pta.New(pta.Config{Prog: c.P, EnginePkgs: map[string]bool{"sio": true, "core": true, "match": true, "crew": true}, Entries: []*ssa.Function{rs},
+		Roots: map[*ssa.Function]map[int]pta.RootSpec{rs: {1: {Name: "source", Levels: 6}}}, External: stdExternal})
+	a.Run()
+	c.noteAnalysis(a)
+	n := c.reportEffects(rule, a, func(e pta.Effect) bool { return strings.HasPrefix(e.Target.Name, "root:source") })
+	if n == 0 {
+		c.R.Discharge(rule, "ResolveSpecSource: the given source is only read", c.P.Pos(rs.Pos()), fmt.Sprintf("%d write sites examined, none can reach what the caller gave", countReachedWrites(a)))
+	}
+	for ri, what := range []string{"spec source", "specification"} {
+		locs := a.ReturnLocs(rs, ri)
+		bad := ""
+		for _, l := range locs {
+			if l.Obj.Kind == pta.KRoot {
+				bad = l.Obj.Name
+			}
+		}
+		c.R.Check(bad == "" && len(locs) > 0, rule, "ResolveSpecSource: the "+what+" it answers is its own", c.P.Pos(rs.Pos()), "result is only: "+locsString(locs), "the "+what+" that ResolveSpecSource returns can be (part of) what the caller gave ("+bad+"): it is compiled in place and installed as the machine's, so machines made from one source value share one Spec with each other and with the caller")
 	}
 }
